@@ -110,7 +110,7 @@ def observe_arith(fx, np, props, op, tx, ty, cxs, cys, route='operator', sizing=
         return dict(base, k='error', err=type(ex).__name__, msg=str(ex)[:200], cx=[wint(c) for c in cxs[:3]], cy=[wint(c) for c in cys[:3]])
 
 
-def observe_const(fx, np, props, op, tx, cxs, const, side, ois, csizing, xmodes, method='raw', extra=None):
+def observe_const(fx, np, props, op, tx, cxs, const, side, ois, csizing, xmodes, method='raw', extra=None, history=False):
     """x op const / const op x with a Python-number constant (exact dyadic given as Fraction)."""
     import fractions
     xm = xmodes
@@ -121,7 +121,17 @@ def observe_const(fx, np, props, op, tx, cxs, const, side, ois, csizing, xmodes,
     if extra:
         base.update(extra)
     try:
-        X = mk(fx, np, tx, cxs, None, rounding=xm[0], overflow=xm[1])
+        if history:
+            # the object was used with the SAME constant under other modes and another input-size policy before, then reconfigured
+            other = {'trunc': 'ceil', 'fix': 'around', 'floor': 'trunc', 'ceil': 'floor', 'around': 'fix'}
+            X = mk(fx, np, tx, cxs, None, rounding=other[xm[0]], overflow='wrap' if xm[1] == 'saturate' else 'saturate')
+            X.config.op_input_size = ois
+            X.config.const_op_sizing = csizing
+            _ = (X + cval), (cval - X), (X * cval)
+            X.config.rounding, X.config.overflow = xm
+            base['route'] = 'operator/history'
+        else:
+            X = mk(fx, np, tx, cxs, None, rounding=xm[0], overflow=xm[1])
         X.config.op_input_size = ois
         X.config.const_op_sizing = csizing
         X.config.op_method = method
@@ -137,11 +147,14 @@ def observe_const(fx, np, props, op, tx, cxs, const, side, ois, csizing, xmodes,
         return dict(base, k='error', err=type(ex).__name__, msg=str(ex)[:200], cx=[wint(c) for c in cxs[:3]])
 
 
-def observe_unary(fx, np, props, op, tx, cxs, xmodes):
+def observe_unary(fx, np, props, op, tx, cxs, xmodes, ois='same'):
     base = {'k': 'unary', 'p': list(props), 'op': op, 'x': dict(zip('swf', (bool(tx[0]), tx[1], tx[2]))),
             'xm': {'r': xmodes[0], 'o': xmodes[1]}, 'route': 'operator', 'carrier': 'array', 'agg': True}
     try:
         X = mk(fx, np, tx, cxs, None, rounding=xmodes[0], overflow=xmodes[1])
+        X.config.op_input_size = ois
+        X.config.const_op_sizing = ['same', 'optimal', 'smallest'][len(cxs) % 3]
+        base['route'] = 'operator/' + ois
         Z = {'neg': lambda: -X, 'pos': lambda: +X, 'abs': lambda: abs(X)}[op]()
         cz = common.codes_of(Z)
         fl = common.flags_of(Z)
